@@ -18,6 +18,21 @@ CHECKS = {
         "ReadOnlyDataStoreZipped not covered.",
         technique="TLA+ model (TLC exhaustive) + spec->code transition replay + code->spec trace validation",
     ),
+    "C07": dict(
+        category="model_checking",
+        text="Recalc.tla transcribes Calculator.change (double buffer, one-deep undo, recycled-array spare juggling, "
+        "out-of-bounds rollback) with cell values modelled as provenance and recycled arrays as heap identities; TLC proves "
+        "Fresh/UndoSound/ReturnIsTop on the closed reachable set of three DAG shapes (all histories of all change vectors) and "
+        "every transition is replayed on a real Calculator comparing both buffers, array identities, _switch, last_values, "
+        "last_undo, spare.  ParamScope.tla models the scope partition / motif probs / alignment / updates_postponed (incl. "
+        "exception exit) / optimiser round trips; its transitions are replayed on real likelihood functions and after each "
+        "step lnL, nfp, per-edge values and exported rules are compared with a function newly built from the spec state.",
+        design_ref="DESIGN.md section 2 / C07",
+        note="Trusted: TLC, harness projections. Provenance abstraction: numeric correctness of individual calc functions is "
+        "not part of C07. One scoped parameter (kappa, HKY85) on a 3-edge tree in layer 2; layer-2 replay is budget-sampled "
+        "(stratified by action) in the quick tier. MPI/parallel calculators and tracing_update not covered.",
+        technique="TLA+ transcription of Calculator.change + scope model (TLC exhaustive) + spec->code transition replay",
+    ),
 }
 
 PENDING = {}
